@@ -1,5 +1,6 @@
 import MuscleModel.Engines.Common
 import MuscleModel.Wire.Ops
+import MuscleModel.Wire.Checksum
 
 /-! Engine `msg` (C01, C08, C02-cpp): a register file of Messages driven by the public API. -/
 
@@ -88,6 +89,10 @@ def step (rs : Regs) (toks : List String) : Regs × String :=
     | some i =>
       let m := getR rs i
       (rs, "ok " ++ toString (sizeMsg m) ++ " " ++ tokOfBytes (encode m))
+    | none => (rs, "bad-op")
+  | ["cksum", r] =>
+    match nat? r with
+    | some i => (rs, "ok " ++ toString (checksumMsg (getR rs i)))
     | none => (rs, "bad-op")
   | ["unflat", r, hx] =>
     match nat? r, bytesOfTok hx with
